@@ -776,14 +776,16 @@ def build_pipeline_inspection(
                 deleted_keys.remove(key)
             key_origin.setdefault(key, index)
 
+        # Validate parameter availability against keys deleted by earlier nodes
+        # (this node's own suppressions take effect after it has read its parameters)
+        missing_deleted = required_params & deleted_keys
+
         # Analyze context key suppression/deletion
         suppressed_keys = set()
         if isinstance(node, _ContextProcessorNode):
             suppressed_keys = set(node.get_suppressed_keys())
             deleted_keys.update(suppressed_keys)
 
-        # Validate parameter availability against deleted keys
-        missing_deleted = (required_params & deleted_keys) - suppressed_keys
         if missing_deleted - set(config_params.keys()):
             node_errors.append(
                 f"Node {index} requires context keys previously deleted: {sorted(missing_deleted)}"
